@@ -23,6 +23,21 @@ def observe():
                            "value": int(getattr(sa, k))})
     for k in ec.SCSI_STATUS.keys:
         ev.append({"ev": "Status", "name": k, "value": int(getattr(ec.SCSI_STATUS, k))})
+    # an application tries to add names that are taken (refused, as documented): every table still says the same
+    for s in SETS:
+        table = getattr(ec, s)
+        for name in list(table.keys)[::7]:
+            try:
+                table.add(name, opc.OpCode(name, (int(getattr(table, name).value) + 1) & 0xFF, {}))
+            except Exception:
+                pass
+            ev.append({"ev": "Lookup", "set": s, "name": name, "value": int(getattr(table, name).value)})
+    for k in list(ec.SCSI_STATUS.keys):
+        try:
+            ec.SCSI_STATUS.add(k, int(getattr(ec.SCSI_STATUS, k)) + 1)
+        except Exception:
+            pass
+        ev.append({"ev": "Status", "name": k, "value": int(getattr(ec.SCSI_STATUS, k))})
     for v in range(256):
         o = opc.OpCode("X", v, {"a": 1})
         try:
